@@ -57,7 +57,8 @@ class S(vlib.Spec):
                 return "C01-use_type_alias_false-typedef-as-defined-type"
             if code == 4 and ("cannot refer to unexported field" in errs or "not exported by package" in errs):
                 return "C01-leading-underscore-name-unexported"
-            if code == 4 and ("template=slim" in be or "no_default_serdes" in be) and "imported and not used" in errs:
+            # enable_nested_struct makes args.go switch the template to slim
+            if code == 4 and ("template=slim" in be or "no_default_serdes" in be or "enable_nested_struct" in be) and "imported and not used" in errs:
                 return "C01-slim-template-unused-import"
             if code == 4 and "field and method with the same name InitDefault" in errs and not re.search(r"same name (?!InitDefault)", errs):
                 return "C01-field-collides-with-unreserved-method:InitDefault"
